@@ -91,6 +91,11 @@ def task_embedded(variant, include_sign, start, end, L, kf1):
         sv.add(R.B(viol))
         t1 = time.time()
         r = sv.check()
+        from vlib import e2util as _x
+        if str(r) in ("sat", "unsat"):
+            _x.cross_check(sv, str(r), 60)
+            if _x.XCHECK["disagree"]:
+                raise RuntimeError("solver disagreement: %r" % _x.XCHECK["disagree"][:2])
         solver_s += time.time() - t1
         nq += 1
         if str(r) == "sat":
@@ -161,6 +166,11 @@ def task_extensible(variant, include_sign, start, end, L):
         sv.add(R.B(viol))
         t1 = time.time()
         r = sv.check()
+        from vlib import e2util as _x
+        if str(r) in ("sat", "unsat"):
+            _x.cross_check(sv, str(r), 60)
+            if _x.XCHECK["disagree"]:
+                raise RuntimeError("solver disagreement: %r" % _x.XCHECK["disagree"][:2])
         solver_s += time.time() - t1
         nq += 1
         if str(r) == "sat":
